@@ -37,8 +37,9 @@ fn stress(id: u64, cfg: &Cfg, threads: usize, ops: usize, seed: u64, out: &mut d
     log.lock().unwrap().push(cj);
     let mut hs = Vec::new();
     for t in 0..threads {
-        let (cache2, log2, nk) = (cache.clone(), log.clone(), cfg.nkeys);
+        let (cache2, log2, nk, clock2) = (cache.clone(), log.clone(), cfg.nkeys, clock.clone());
         hs.push(std::thread::spawn(move || {
+            let tick = || clock2.now().duration_since(base).as_secs() as i64;
             let mut rng = Rng::new(seed * 1000 + t as u64);
             for ip in 0..ops {
                 let k = 1 + rng.below(nk as u64) as u32;
@@ -48,20 +49,28 @@ fn stress(id: u64, cfg: &Cfg, threads: usize, ops: usize, seed: u64, out: &mut d
                     ("Insert", opid as u32)
                 } else if c < 80 {
                     ("Get", 0)
-                } else if c < 92 {
+                } else if c < 90 {
                     ("Invalidate", 0)
+                } else if c < 94 && t == 0 {
+                    // only thread 1 moves the clock, right before its invalidate_all
+                    ("InvalidateAll", 0)
                 } else {
                     ("Sync", 0)
                 };
-                log2.lock().unwrap().push(json!({"ev": "Inv", "t": t + 1, "id": opid, "op": op, "k": k, "v": v}));
+                if op == "InvalidateAll" {
+                    clock2.advance(Duration::from_secs(1));
+                }
+                log2.lock().unwrap().push(json!({"ev": "Inv", "t": t + 1, "id": opid, "op": op,
+                    "k": if op == "InvalidateAll" { 0 } else { k }, "v": v, "now": tick()}));
                 let mut r: i64 = -1;
                 match op {
                     "Insert" => cache2.insert(K::new(k), Val::new(v, 1)),
                     "Get" => r = cache2.get(&K::probe(k)).map(|v| v.id as i64).unwrap_or(-1),
                     "Invalidate" => cache2.invalidate(&K::probe(k)),
+                    "InvalidateAll" => cache2.invalidate_all(),
                     _ => cache2.sync(),
                 }
-                log2.lock().unwrap().push(json!({"ev": "Ret", "t": t + 1, "id": opid, "r": r}));
+                log2.lock().unwrap().push(json!({"ev": "Ret", "t": t + 1, "id": opid, "r": r, "now": tick()}));
             }
         }));
     }
@@ -83,6 +92,24 @@ fn stress(id: u64, cfg: &Cfg, threads: usize, ops: usize, seed: u64, out: &mut d
         for h in hs {
             let _ = h.join();
         }
+        for e in settle(cfg, cache, clock, base) {
+            log.lock().unwrap().push(e);
+        }
+    }
+    for e in log.lock().unwrap().iter() {
+        writeln!(out, "{}", e).unwrap();
+    }
+    if hang {
+        out.flush().unwrap();
+        std::process::exit(3);
+    }
+}
+
+/// After the threads have stopped: maintenance, the final content (C02 iii), a refill (C03),
+/// and the object counts once the cache is gone (C11).
+fn settle(cfg: &Cfg, cache: SCache, clock: MockClock, base: Instant) -> Vec<Value> {
+    let mut evs: Vec<Value> = Vec::new();
+    {
         cache.sync();
         cache.sync();
         let mut w = World::adopt(cfg.clone(), AnyCache::S(cache), clock, base);
@@ -90,8 +117,8 @@ fn stress(id: u64, cfg: &Cfg, threads: usize, ops: usize, seed: u64, out: &mut d
         ev["snap"] = w.snapshot();
         ev["mx"] = json!([]);
         let items = w.exec(&json!({"op": "Iter"}))["items"].clone();
-        log.lock().unwrap().push(ev);
-        log.lock().unwrap().push(json!({"ev": "Final", "items": items}));
+        evs.push(ev);
+        evs.push(json!({"ev": "Final", "items": items}));
         let want = if cfg.cap < 0 { cfg.nkeys as i64 } else { cfg.cap.min(cfg.nkeys as i64) };
         for k in 1..=cfg.nkeys {
             w.exec(&json!({"op": "Invalidate", "k": k}));
@@ -107,25 +134,143 @@ fn stress(id: u64, cfg: &Cfg, threads: usize, ops: usize, seed: u64, out: &mut d
                 kept += 1;
             }
         }
-        log.lock().unwrap().push(json!({"ev": "Refill", "want": want, "kept": kept}));
+        evs.push(json!({"ev": "Refill", "want": want, "kept": kept}));
         drop(w);
         use std::sync::atomic::Ordering::SeqCst;
-        log.lock().unwrap().push(json!({"ev": "End", "lk": LIVE_KEYS.load(SeqCst), "lv": LIVE_VALS.load(SeqCst),
+        evs.push(json!({"ev": "End", "lk": LIVE_KEYS.load(SeqCst), "lv": LIVE_VALS.load(SeqCst),
             "dd": DOUBLE_DROPS.load(SeqCst), "km": KEYS_MADE.load(SeqCst), "kd": KEYS_DROPPED.load(SeqCst),
             "vm": VALS_MADE.load(SeqCst), "vd": VALS_DROPPED.load(SeqCst)}));
     }
-    for e in log.lock().unwrap().iter() {
+    evs
+}
+
+/// A get spinning beside one write, again and again: windows inside a single operation that
+/// have no switch point (C02).  Thread 1 prepares an entry and possibly kills it (invalidate,
+/// or invalidate_all one clock tick later); then thread 2 performs one write of the key while
+/// thread 3 reads it in a tight loop.  Every operation is stamped from one atomic counter at
+/// its invocation and at its return, and the log is ordered by the stamps.  Of the gets that
+/// returned nothing only the first and the last of an attempt are kept: they are never judged
+/// by C02 and do not change the monitor's state.
+fn race(id: u64, attempts: usize, seed: u64, out: &mut dyn Write) {
+    use std::sync::atomic::Ordering::SeqCst;
+    reset_counters();
+    let cfg = Cfg::from_json(&json!({"kind": "sync", "cap": -1, "nkeys": 2, "hasher": "id", "weigher": false}));
+    let (cache, clock, base) = mk_cache(&cfg);
+    let mut cj = cfg.to_json();
+    cj["ev"] = json!("Config");
+    cj["id"] = json!(id);
+    cj["threads"] = json!(3);
+    cj["mode"] = json!("race");
+    writeln!(out, "{}", cj).unwrap();
+    let seq = AtomicU64::new(0);
+    let tick = || clock.now().duration_since(base).as_secs() as i64;
+    let mut rng = Rng::new(seed);
+    let mut events: Vec<(u64, Value)> = Vec::new();
+    let mut nid = [0u64; 4];
+    let mut nval = [0u32; 4];
+    // one logged call of thread t
+    let call = |t: usize, opid: u64, op: &str, k: u32, v: u32, evs: &mut Vec<(u64, Value)>| -> i64 {
+        let now = tick();
+        let s0 = seq.fetch_add(1, SeqCst);
+        evs.push((s0, json!({"ev": "Inv", "t": t, "id": opid, "op": op, "k": k, "v": v, "now": now})));
+        let mut r: i64 = -1;
+        match op {
+            "Insert" => cache.insert(K::new(k), Val::new(v, 1)),
+            "Get" => r = cache.get(&K::probe(k)).map(|v| v.id as i64).unwrap_or(-1),
+            "Invalidate" => cache.invalidate(&K::probe(k)),
+            "InvalidateAll" => cache.invalidate_all(),
+            _ => cache.sync(),
+        }
+        let now = tick();
+        let s1 = seq.fetch_add(1, SeqCst);
+        evs.push((s1, json!({"ev": "Ret", "t": t, "id": opid, "r": r, "now": now})));
+        r
+    };
+    for _ in 0..attempts {
+        let k = 1 + rng.below(2) as u32;
+        let mut next = |t: usize| -> (u64, u32) {
+            nid[t] += 1;
+            nval[t] += 1;
+            ((t as u64) * 10000 + nid[t], (t as u32) * 100 + nval[t])
+        };
+        let (i1, v1) = next(1);
+        call(1, i1, "Insert", k, v1, &mut events);
+        match rng.below(5) {
+            0 => {}
+            1 => {
+                let (i, _) = next(1);
+                call(1, i, "Invalidate", k, 0, &mut events);
+            }
+            2 => {
+                let (i, _) = next(1);
+                call(1, i, "Sync", 0, 0, &mut events);
+            }
+            x => {
+                clock.advance(Duration::from_secs(1));
+                let (i, _) = next(1);
+                call(1, i, "InvalidateAll", 0, 0, &mut events);
+                if x == 4 {
+                    clock.advance(Duration::from_secs(1));
+                }
+            }
+        }
+        let (ia, va) = next(2);
+        let aop = *rng.pick(&["Insert", "Insert", "Insert", "Invalidate", "InvalidateAll"]);
+        let go = AtomicBool::new(false);
+        let adone = AtomicBool::new(false);
+        let gets0 = nid[3];
+        nid[3] += 400;
+        let (mut ea, mut eb): (Vec<(u64, Value)>, Vec<(u64, Value)>) = (Vec::new(), Vec::new());
+        std::thread::scope(|sc| {
+            let (go, adone, call, clock) = (&go, &adone, &call, &clock);
+            let ea = &mut ea;
+            let eb = &mut eb;
+            sc.spawn(move || {
+                while !go.load(SeqCst) {
+                    std::hint::spin_loop();
+                }
+                if aop == "InvalidateAll" {
+                    clock.advance(Duration::from_secs(1));
+                }
+                call(2, ia, aop, if aop == "InvalidateAll" { 0 } else { k }, if aop == "Insert" { va } else { 0 }, ea);
+                adone.store(true, SeqCst);
+            });
+            sc.spawn(move || {
+                while !go.load(SeqCst) {
+                    std::hint::spin_loop();
+                }
+                let mut n = 0u64;
+                let mut after = 0;
+                while n < 300 && after < 2 {
+                    if adone.load(SeqCst) {
+                        after += 1;
+                    }
+                    n += 1;
+                    call(3, 30000 + gets0 + n, "Get", k, 0, eb);
+                }
+            });
+            std::thread::sleep(Duration::from_micros(30));
+            go.store(true, SeqCst);
+        });
+        events.append(&mut ea);
+        // thin out the gets that returned nothing
+        let nones: Vec<u64> = eb.iter().filter(|(_, e)| e["ev"] == "Ret" && e["r"] == json!(-1)).map(|(_, e)| e["id"].as_u64().unwrap()).collect();
+        let drop: std::collections::HashSet<u64> = if nones.len() > 2 { nones[1..nones.len() - 1].iter().cloned().collect() } else { Default::default() };
+        events.extend(eb.into_iter().filter(|(_, e)| !drop.contains(&e["id"].as_u64().unwrap())));
+    }
+    events.sort_by_key(|(s, _)| *s);
+    for (_, e) in events.iter() {
         writeln!(out, "{}", e).unwrap();
     }
-    if hang {
-        out.flush().unwrap();
-        std::process::exit(3);
+    drop(call);
+    for e in settle(&cfg, cache, clock, base) {
+        writeln!(out, "{}", e).unwrap();
     }
 }
 
 /// Bursts without sync(): every call must return (C09); the cache may overshoot its
 /// capacity only by the write queue plus one entry per inserting thread (C04).
-fn burst(id: u64, threads: usize, n: usize, far: bool, cap: i64, out: &mut dyn Write) {
+fn burst(id: u64, threads: usize, n: usize, far: bool, cap: i64, mix: &'static str, out: &mut dyn Write) {
     REGISTRY_ON.store(false, Ordering::SeqCst);
     let cfg = Cfg::from_json(&json!({"kind": "sync", "cap": cap, "nkeys": 64, "hasher": "mix", "seed": id}));
     let (cache, clock, _base) = mk_cache(&cfg);
@@ -138,6 +283,7 @@ fn burst(id: u64, threads: usize, n: usize, far: bool, cap: i64, out: &mut dyn W
     cj["id"] = json!(id);
     cj["threads"] = json!(threads);
     cj["mode"] = json!(if far { "burst-far" } else { "burst-near" });
+    cj["mix"] = json!(mix);
     writeln!(out, "{}", cj).unwrap();
     let done = Arc::new(AtomicU64::new(0));
     let stop = Arc::new(AtomicBool::new(false));
@@ -150,7 +296,16 @@ fn burst(id: u64, threads: usize, n: usize, far: bool, cap: i64, out: &mut dyn W
             for i in 0..n {
                 // many distinct keys so that the map really grows between maintenance runs
                 let k = (t * n + i) as u32 + 1;
-                match rng.below(10) {
+                // "writes": nothing but inserts, so that only the write channel can trigger
+                // maintenance; "invs": an insert then nothing but invalidations of absent and
+                // present keys (remove ops fill the channel); "reads": hits and misses only
+                let c = match mix {
+                    "writes" => 0,
+                    "invs" => if i % 7 == 0 { 0 } else { 9 },
+                    "reads" => if i == 0 { 0 } else { 7 },
+                    _ => rng.below(10),
+                };
+                match c {
                     0..=6 => cache2.insert(K::new(k), Val::new(k, 1)),
                     7 | 8 => {
                         let _ = cache2.get(&K::probe(1 + rng.below(k as u64) as u32));
@@ -296,6 +451,18 @@ pub fn cmd_free(args: &[String]) {
         return;
     }
     // free stress <seed> <runs> <threads> <ops> <trace-out> | free burst <seed> <trace-out>
+    if args[0] == "race" {
+        // free race <seed> <behaviours> <attempts> <trace-out>
+        let seed: u64 = args[1].parse().unwrap();
+        let runs: u64 = args[2].parse().unwrap();
+        let attempts: usize = args[3].parse().unwrap();
+        let mut out = std::io::BufWriter::new(std::fs::File::create(&args[4]).unwrap());
+        for id in 0..runs {
+            race(id, attempts, seed * 1000 + id, &mut out);
+        }
+        println!("{}", json!({"runs": runs}));
+        return;
+    }
     if args[0] == "stress" {
         let seed: u64 = args[1].parse().unwrap();
         let runs: u64 = args[2].parse().unwrap();
@@ -317,11 +484,16 @@ pub fn cmd_free(args: &[String]) {
         for far in [false, true] {
             for threads in [1usize, 8] {
                 for cap in [-1i64, 100] {
-                    burst(id, threads, n, far, cap, &mut out);
-                    id += 1;
+                    for mix in ["mixed", "writes", "invs", "reads"] {
+                        if mix != "mixed" && (cap == -1) != (threads == 1) {
+                            continue;
+                        }
+                        burst(id, threads, n, far, cap, mix, &mut out);
+                        id += 1;
+                    }
                 }
             }
         }
-        println!("{}", json!({"runs": 8}));
+        println!("{}", json!({"runs": id - seed * 10}));
     }
 }
